@@ -116,7 +116,7 @@ def run(out, tier, seed):
         variants = [("original", q)] + rewrites(q, rng)
         for vi, (name, qv) in enumerate(variants):
             fac, st = stores[(i + vi) % len(stores)]
-            jobs.append({"cfg": {"facade": fac, "store": st}, "events": [data, {"op": "query", "q": qv, "prefixed": [False, True, "base-rel"][(i + vi) % 3], "rewrite": name}]})
+            jobs.append({"cfg": {"facade": fac, "store": st}, "events": [data, {"op": "query", "q": qv, "prefixed": [False, True, "base-rel", "two"][(i + vi) % 4], "rewrite": name}]})
             nrew += name != "original"
         # (b) initBindings on outermost-BGP variables
         first = w["elts"][0]
